@@ -75,8 +75,14 @@ def gen_cases(ctx):
     cases = []
     for cls in sem.CLASSES:
         n = sem.NPOS[cls]
-        for pat in patterns(cls):
+        for pat, special in [(p_, sp) for p_ in patterns(cls) for sp in (False, True)]:
             labels = rng.sample(range(-40, 400), n)
+            if special:
+                # ids that double as sentinels in careless code: 0 (falsy) and -1 ("not found" / "no atom")
+                pos = rng.sample(range(n), 2)
+                labels = [x for x in labels if x not in (0, -1)] + rng.sample(range(400, 500), 2)
+                labels = labels[:n]
+                labels[pos[0]], labels[pos[1]] = 0, -1
             m = len(orderings(cls, labels, pat))
             if ctx.tier == "quick":
                 idx = sorted({0, *rng.sample(range(m), min(m, 40))})
